@@ -16,13 +16,24 @@ def main():
     from pyvc.runner import check_property
     if a.replay:
         with open(a.replay) as f:
-            print(f.read())
+            d = json.load(f)
+        print(json.dumps(d, indent=1)[:6000])
+        v = d.get('violation') or {}
+        if d.get('kind') == 'native-counterexample' and v.get('script') and v.get('input') is not None:
+            from pyvc.runner import native_python
+            r = native_python(v['script'], ['replay', json.dumps(v['input'])])
+            ids = [x.get('id') for x in r.get('violations', [])]
+            print('REPLAY on the current tree: %d violation(s) %s' % (len(ids), ids[:5]))
+            return 1 if ids else 0
+        if d.get('native_replay'):
+            print('REPLAY (recorded): %s' % d['native_replay'])
         return 0
     if a.prop not in REGISTRY:
         print('unknown or not-applicable property %s' % a.prop)
         return 3
     r = REGISTRY[a.prop]
     tier = a.tier if a.tier in ('quick', 'thorough') else 'quick'
+    os.environ['VERIF_TIER_EFFECTIVE'] = tier
     try:
         return check_property(a.prop, r['module'], tier=tier, native=r.get('native'),
                               workers=a.workers, level=r.get('level', 'proof'),
